@@ -680,8 +680,16 @@ impl Emit for ModuleFunctions {
             ));
         }
         cx.code_transform.function_ranges.sort_by_key(|i| i.0);
-        // FIXME: code section start in DWARF debug information expects 2 bytes before actual code section start.
-        cx.code_transform.code_section_start = code_section_start_offset - 2;
+        // Code-relative (DWARF) addresses are measured from the start of the
+        // code section's contents, i.e. from the LEB128 function count that
+        // precedes the first function entry.
+        let mut count_leb_len = 1;
+        let mut count = wasm_code_section.len() >> 7;
+        while count != 0 {
+            count_leb_len += 1;
+            count >>= 7;
+        }
+        cx.code_transform.code_section_start = code_section_start_offset - count_leb_len;
         cx.code_transform.instruction_map = instruction_map.into_iter().collect();
     }
 }
